@@ -1,5 +1,7 @@
 import F3.Proofs.WalRead
 import F3.Gen.Wal
+import F3.Proofs.WalCbor
+import F3.Gen.Schema
 /-!
 # C11 — WAL: acknowledged entries survive crashes and torn writes; purge is conservative
 
@@ -234,5 +236,158 @@ example : F3.Gen.Wal.maybeRotate false 1048576 true = 0 ∧ F3.Gen.Wal.maybeRota
     F3.Gen.Wal.maybeRotate false 0 false = 1 ∧ F3.Gen.Wal.maybeRotate true 0 true = 2 := by decide
 example : rotateCode (tokCfg 1048576) [("a", [])] ⟨[], some ⟨"a", 0⟩⟩ = 0 ∧
     rotateCode (tokCfg 1048576) [] ⟨[], none⟩ = 1 := by decide
+
+/-! ## The record format of the real log: cbor-gen records
+
+Everything above holds for every codec with `Codec.Ok`.  The deployed log
+(`writeaheadlog.Open[walEntry]`, `/repo/f3.go`) stores `walEntry{Message *gpbft.GMessage}` records;
+`walEntry.MarshalCBOR` / `UnmarshalCBOR` (`/repo/wal.go`, hand-written, three lines each — `walEntry` is
+*not* in `gen/main.go` and has no generated codec of its own) delegate to `GMessage.MarshalCBOR` /
+`UnmarshalCBOR` without adding a byte, so a record is exactly one `GMessage` tuple and its schema is the
+entry `gpbft.GMessage` of the table `F3.Gen.Schema`, regenerated from the Go sources on every run.
+
+`cborCodec sch` (`F3/Model/WalCbor.lean`) is the WAL codec whose `enc` is `F3.Cbor.encode sch` and whose
+`dec1` is `F3.Cbor.decode sch` (value **and unread rest**) over bytes; its records `Rec sch` are the
+values the generated encoder accepts (`Append` returns the encoder's error before writing anything; a nil
+`Message` — written as the single byte `0xf6`, after which `WALEpoch` dereferences nil — is outside the
+value domain: `BroadcastMessage`, the only caller, has dereferenced the message before).
+`cbor_codec_ok` proves `Codec.Ok` for it — in particular *torn at any byte*: on every strict prefix of an
+encoding the generated decoder fails (with end-of-input), by induction on the schema — for **every**
+well-formed schema of a Go type, hence for all 16 types of the table; no schema shape was found for
+which a strict prefix of an encoding decodes (trailing `nullable` fields and empty arrays included: the
+absent pointer is the byte `0xf6`, the empty array the head `0x80`, and a tuple's arity is in its head).
+-/
+section CborRecords
+open F3.Cbor F3.Codec
+
+/-- The schema of a WAL record: `gpbft.GMessage` as extracted from the sources now. -/
+abbrev walSchema : Schema := Gen.Schema.gpbft_GMessage
+
+/-- WAL records: `GMessage` values the generated encoder accepts. -/
+abbrev WalRec : Type := Rec walSchema
+
+/-- The codec of the deployed log. -/
+def walCodec : Codec WalRec Nat := cborCodec walSchema
+
+/-- The deployed configuration: `WALEpoch` = `Message.Vote.Instance`, file size counted in bytes,
+`rotateAt = 1 << 20` (the constant `maybe_rotate_is_regenerated` reads from the source). -/
+def walCfg : Cfg WalRec Nat := ⟨walCodec, fun r => gmsgInstance r.1, fun _ => 1, 1048576⟩
+
+/-- The record schema is an entry of the regenerated table, well-formed (encoder, decoder and struct tags
+agree on every limit), and the schema of a Go type. -/
+theorem wal_schema_is_regenerated :
+    ("gpbft.GMessage", walSchema) ∈ Gen.Schema.table ∧ walSchema.wf = true ∧ walSchema.isRecord = true := by
+  decide
+
+/-- **A torn cbor-gen record never decodes.** For every well-formed schema, every value `v` the encoder
+accepts and every `n` below the length of the encoding, the generated decoder fails on the first `n`
+bytes — with end of input, whatever the schema (optional trailing fields, empty slices, nested tuples). -/
+theorem torn_record_rejected (s : Schema) (hwf : s.wf = true) (v : Value) (b : Bytes)
+    (he : encode s v = some b) (n : Nat) (hn : n < b.length) : decode s (b.take n) = .error .eof :=
+  decode_torn s hwf v b he _ (sprefix_take b n hn)
+
+/-- **cbor-gen records satisfy `Codec.Ok`**: non-empty encodings, `decode (encode v ++ rest) = (v, rest)`,
+no strict prefix of an encoding decodes. -/
+theorem cbor_codec_ok (sch : Schema) (hwf : sch.wf = true) (hr : sch.isRecord = true) : (cborCodec sch).Ok :=
+  F3.Wal.cborCodec_ok sch hwf hr
+
+/-- … for every type that has a generated codec (the table as regenerated now). -/
+theorem cbor_codec_ok_every_type (name : String) (s : Schema) (hmem : (name, s) ∈ Gen.Schema.table) :
+    (cborCodec s).Ok := by
+  have h : ∀ p ∈ Gen.Schema.table, p.2.wf = true ∧ p.2.isRecord = true := by decide
+  exact F3.Wal.cborCodec_ok s (h _ hmem).1 (h _ hmem).2
+
+theorem walCodec_ok : walCodec.Ok :=
+  F3.Wal.cborCodec_ok walSchema wal_schema_is_regenerated.2.1 wal_schema_is_regenerated.2.2
+
+/-- **Acknowledged CBOR records survive**: `acked_survive` for the log of `GMessage` records, bytes as
+tokens — any history, crashes tearing an append at any byte included. -/
+theorem acked_survive_cbor (cfg : Cfg WalRec Nat) (hcodec : cfg.codec = walCodec) (ops : List (Op WalRec))
+    (r : List (Name × WalRec)) (hr : (step cfg (run cfg init ops) .all).2 = .entries r) :
+    ∀ p ∈ (run cfg init ops).acked, p ∈ r :=
+  acked_survive cfg (hcodec ▸ walCodec_ok) ops r hr
+
+/-- **No phantoms, CBOR records**: everything `All()` decodes from the byte files was the argument of an
+append of the history (acknowledged, or cut by a crash — and then written completely). -/
+theorem no_phantoms_cbor (cfg : Cfg WalRec Nat) (hcodec : cfg.codec = walCodec) (ops : List (Op WalRec))
+    (r : List (Name × WalRec)) (hr : (step cfg (run cfg init ops) .all).2 = .entries r) :
+    ∀ p ∈ r, (p ∈ (run cfg init ops).acked ∨ p ∈ (run cfg init ops).inflight) ∧
+      ((∃ nm, Op.append p.2 nm ∈ ops) ∨ (∃ nm n, Op.crashAppend p.2 nm n ∈ ops)) :=
+  fun p hp => ⟨no_phantoms cfg (hcodec ▸ walCodec_ok) ops r hr p hp,
+               no_phantoms_history cfg (hcodec ▸ walCodec_ok) ops r hr p hp⟩
+
+/-- **Durability end to end, CBOR records**: an acknowledged `GMessage` is returned, intact, by every
+later successful `All()` — after restarts, crashes, appends torn at any byte `n`, rotations — unless a
+purge strictly above its epoch intervened. -/
+theorem wal_durability_cbor (cfg : Cfg WalRec Nat) (hcodec : cfg.codec = walCodec)
+    (ops₁ ops₂ : List (Op WalRec)) (e : WalRec) (nm : Name)
+    (hack : (step cfg (run cfg init ops₁) (.append e nm)).2 = .ok)
+    (r : List (Name × WalRec))
+    (hr : (step cfg (run cfg (step cfg (run cfg init ops₁) (.append e nm)).1 ops₂) .all).2 = .entries r) :
+    (∃ f, (f, e) ∈ r) ∨ ∃ k, Op.purge k ∈ ops₂ ∧ cfg.epoch e < k :=
+  wal_durability cfg (hcodec ▸ walCodec_ok) ops₁ ops₂ e nm hack r hr
+
+/-- **The reader is plain `UnmarshalCBOR`.** `cborCodec.dec1` re-checks that the decoded value is one
+the encoder accepts (it has to return a `WalRec`); `rawCodec` is the loop of `readLogFile` as it is —
+`UnmarshalCBOR` until the first error, no re-check.  On every file of every reachable directory the two
+return the same values: the re-check is never exercised. -/
+theorem reads_are_plain_cbor_decoding (cfg : Cfg WalRec Nat) (hcodec : cfg.codec = walCodec)
+    (ops : List (Op WalRec)) (nm : Name) (bs : Bytes) (hmem : (nm, bs) ∈ (run cfg init ops).dir) :
+    readFile (rawCodec walSchema) bs = (readFile cfg.codec bs).map (·.1) := by
+  have hinv := inv_reachable (hcodec ▸ walCodec_ok : cfg.codec.Ok) ops
+  obtain ⟨hwf, hrec⟩ := wal_schema_is_regenerated.2
+  rcases hinv.content nm bs hmem with h | ⟨_, e, k, _, h⟩
+  · rw [h, hcodec]; exact readFile_raw_eq_complete hwf hrec _
+  · rw [h, hcodec]; exact readFile_raw_eq hwf hrec _ e k
+
+/-! ### non-vacuity: a concrete `GMessage`, its bytes, every cut -/
+
+/-- sender, `Vote{Instance, Round 0, Phase 1, SupplementalData{32 zero bytes, CID 01 71 00 00}, empty chain}`,
+a 2-byte signature, empty ticket, no justification -/
+private def gmsg (sender inst : Nat) : Value :=
+  .cons (.uint sender)
+    (.cons (.cons (.uint inst) (.cons (.uint 0) (.cons (.uint 1)
+        (.cons (.cons (.bytes (List.replicate 32 0)) (.cons (.bytes [1, 113, 0, 0]) .nil)) (.cons .nil .nil)))))
+      (.cons (.bytes [7, 7]) (.cons (.bytes []) (.cons .null .nil))))
+
+private def m0 : WalRec := ⟨gmsg 1 7, by decide⟩
+private def m1 : WalRec := ⟨gmsg 2 9, by decide⟩
+
+/-- the 55 bytes of the record -/
+example : walCodec.enc m0 =
+    [133, 1, 133, 7, 0, 1, 130, 88, 32] ++ List.replicate 32 0 ++ [216, 42, 69, 0, 1, 113, 0, 0, 128, 66, 7, 7, 64, 246] := by
+  decide
+
+/-- every one of the 55 strict prefixes is rejected — also the 54-byte one that lacks only the `0xf6` of
+the absent (trailing, optional) justification — by the codec reader and by plain `decode` -/
+example : ((List.range (walCodec.enc m0).length).all fun n =>
+    (walCodec.dec1 ((walCodec.enc m0).take n)).isNone &&
+    decide (decode walSchema ((walCodec.enc m0).take n) = .error .eof)) = true := by decide
+
+/-- the full encoding is accepted and the bytes after it are handed back untouched -/
+example : walCodec.dec1 (walCodec.enc m0 ++ [133, 2]) = some (m0, [133, 2]) := by decide
+
+/-- why this is not `encode_prefix_free`: the decoder accepts byte strings no encoder writes (here `0xf6`
+instead of `0x80` for the empty chain, byte 50) — they are complete records, never cut ones -/
+example : decode walSchema ([133, 1, 133, 7, 0, 1, 130, 88, 32] ++ List.replicate 32 0 ++
+    [216, 42, 69, 0, 1, 113, 0, 0, 246, 66, 7, 7, 64, 246]) = .ok (m0.1, []) := by decide
+
+example : walCfg.epoch m0 = 7 := by decide
+
+/-- a byte-level history: `m1` torn one byte before its end does not come back after the restart, … -/
+example : (step walCfg (run walCfg init [.open, .append m0 "a", .crashAppend m1 "a" 54, .open]) .all).2
+    = (.entries [("a", m0)] : Res WalRec) := by decide
+
+/-- … written completely (but never acknowledged) it does; nothing else ever appears. -/
+example : (step walCfg (run walCfg init [.open, .append m0 "a", .crashAppend m1 "a" 55, .open]) .all).2
+    = (.entries [("a", m0), ("a", m1)] : Res WalRec) := by decide
+
+/-- the hypotheses of `wal_durability_cbor` are met by a history with a torn append and a restart -/
+example : walCfg.codec = walCodec ∧ (step walCfg (run walCfg init [.open]) (.append m0 "a")).2 = (.ok : Res WalRec) ∧
+    (step walCfg (run walCfg (step walCfg (run walCfg init [.open]) (.append m0 "a")).1
+      [.crashAppend m1 "b" 20, .open, .purge 7]) .all).2 = (.entries [("a", m0)] : Res WalRec) :=
+  ⟨rfl, by decide, by decide⟩
+
+end CborRecords
 
 end F3.Props.C11
